@@ -24,7 +24,7 @@ for name in names:
     for p in props:
         # z/ changes cannot affect root-package checks and vice versa (the tree uses simd; nothing else crosses)
         zprop = p in ("C10", "C11", "C12", "C16", "C19", "C20")
-        zchange = "z/" in files
+        zchange = "z/" in files and "z/z.go" not in files
         if files and zprop != zchange and not (p == "C18" and "bbloom" in files) and not (p == "C09" and "bbloom" in files):
             continue
         e = dict(os.environ, VERIF_REPO=d, VERIF_WORK=d + ".work", VERIF_EVIDENCE_DIR=d + ".ev", VERIF_BUILD=d + ".build", VERIF_HARNESS=HSNAP)
